@@ -434,7 +434,7 @@ def run_real_shard(job: dict[str, Any]) -> dict[str, Any]:
 
                     th = threading.Thread(target=second, daemon=True)
                     th.start()
-                    th.join(timeout=40.0)
+                    th.join(timeout=120.0)
                     m = pool.metrics
                     wit = {"scenario": sc, "max_idle": max_idle, "first_exc": first_exc, "second": out, "logs2": logs2, "reuses": m.reuses, "spawns": m.spawns, "discards": m.discards}
                     chk.case(cls)
